@@ -34,6 +34,14 @@ struct Spec { int type; u128 a, b; }; // type 0: a-b   1: a-   2: -a
 
 enum Kind { Valid, Invalid, Grey };
 
+// a '-' sign was seen where a number is expected: "-0" (strtoll's negative zero) is a lenient spelling of 0 and
+// not judged; a negative number or no number is invalid under every reading
+bool negZero(const std::string &e, size_t at) {
+    size_t i = at;
+    while (i < e.size() && e[i] == '0') ++i;
+    return i > at && !(i < e.size() && isDig(e[i]));
+}
+
 // classifies one list element (already OWS-trimmed, non-empty)
 Kind classify(const std::string &e, Spec &sp) {
     const size_t n = e.size();
@@ -59,11 +67,13 @@ Kind classify(const std::string &e, Spec &sp) {
     if (c0 == '+') return Grey;
     if (c0 == '-') {
         const char c1 = e[1]; // n >= 2 here ("-" alone was handled)
+        if (c1 == '-') return negZero(e, 2) ? Grey : Invalid;
         return (isDig(c1) || c1 == '+' || isOws(c1)) ? Grey : Invalid;
     }
     // digit run first
     if (e[i] == '-') { // i < n because there is a '-' somewhere and the digit run ended
         const char c = e[i + 1]; // exists: otherwise strictly valid open range
+        if (c == '-') return negZero(e, i + 2) ? Grey : Invalid;
         return (isDig(c) || c == '+' || isOws(c)) ? Grey : Invalid;
     }
     return Grey; // number followed by garbage, '-' later
@@ -222,11 +232,11 @@ std::string genNum(Rng &r, int64_t hint) {
     case 3: case 4: s = std::to_string(std::max<int64_t>(0, (hint > INT64_MAX - 2 ? INT64_MAX - 2 : hint) + r.range(-2, 2))); break;
     case 5: { // int64 / int32 boundaries, including unrepresentable ones
         static const u128 lim[] = {(u128)INT64_MAX, (u128)INT64_MAX + 1, ((u128)1 << 64) - 1, (u128)1 << 64, (u128)INT32_MAX, (u128)UINT32_MAX, (u128)1 << 62};
-        s = str128(lim[r.below(7)] + (u128)r.range(0, 4) - 2);
+        s = str128(lim[r.chance(1, 2) ? 0 : r.below(7)] + (u128)r.range(0, 4) - 2);
         break; }
     case 6: s = std::to_string(r.next() >> (1 + r.below(63))); break;
     case 7: s = std::to_string(INT64_MAX - (int64_t)r.below(4)); break;
-    case 8: s = r.from("0123456789", 1 + r.below(25)); break;
+    case 8: s = r.from("0123456789", 1 + r.below(r.chance(1, 6) ? 25 : 18)); break;
     default: s = std::to_string(r.below(100000)); break;
     }
     if (r.chance(1, 12)) s.insert(0, r.below(3) + 1, '0');
@@ -247,8 +257,8 @@ std::string genSpec(Rng &r, int64_t hint) {
     if (k < 75) return "-" + genNum(r, hint);
     if (k < 78) { const int64_t x = r.below(70); return std::to_string(x) + "-" + std::to_string(x + r.range(0, 3)); }
     if (k < 90) // clearly invalid
-        return r.pick({"-", "5", "abc", "x-5", "5-x", "--5", "5--3", "9-3", "-x", "a-", "=1-2", "1=2", "*", "0x1-2", "1.5-2", ".-", "1_2", "~-1", "7-6", "18446744073709551616-3"});
-    if (k < 96) // lenient forms, not judged
+        return r.pick({"-", "5", "abc", "x-5", "5-x", "--5", "5--3", "0--0", "--0", "9-3", "-x", "a-", "=1-2", "1=2", "*", "0x1-2", "1.5-2", ".-", "1_2", "~-1", "7-6", "18446744073709551616-3"});
+    if (k < 93) // lenient forms, not judged
         return r.pick({"-+5", "+1-2", "1-+2", "1 -2", "1- 2", "- 5", "1x-2", "1-2x", "-5x", "1 2-3", "1-2 3", "\"1-2\"", "1\\-2", "1-\v2"});
     // one random edit of a valid spec
     std::string s = genNum(r, hint) + "-" + genNum(r, hint);
